@@ -137,15 +137,36 @@ def resolve(f, table=None):
         b_ = f.bodies[q]
         return self_of(f, q) == "function::UserFunctions" and any(f.ty_s(b_["locals"][i]["ty"]).startswith("&mut ") for i in range(2, b_["arg_count"] + 1))
 
+    def route_chain():
+        # the route of a user-function call from the context down to the function table: the UserFunctions method that
+        # takes the cache by `&mut`, reached directly or through intermediate holders of the function table (a RuleSet
+        # method today, an `Environment` method elsewhere) that are handed the cache as well
+        def hands_cache_on(q):
+            b_ = f.bodies[q]
+            return any(f.ty_s(b_["locals"][i]["ty"]).startswith("&mut ") for i in range(2, b_["arg_count"] + 1))
+        paths = [[a["ctx_call"]]]
+        found = []
+        for _ in range(4):
+            nxt = []
+            for pth in paths:
+                for q in tree_callees(f, pth[-1]):
+                    if q in pth:
+                        continue
+                    if takes_cache(q):
+                        found.append(pth + [q])
+                    elif hands_cache_on(q):
+                        nxt.append(pth + [q])
+            if found:
+                break
+            paths = nxt
+        ends = sorted(set(p_[-1] for p_ in found))
+        if len(ends) != 1 or len(found) != 1:
+            raise Inconclusive("anchor route from the context's function call to the function table not found structurally (%s)" % [[short_callee(x) for x in p_] for p_ in found])
+        return found[0]
+
     def route():
-        # the route of a user-function call from the context down to the function table: the UserFunctions method
-        # that takes the cache by `&mut`, reached directly or through one RuleSet method
-        direct = [q for q in tree_callees(f, a["ctx_call"]) if takes_cache(q)]
-        via = [(r, q) for r in tree_callees(f, a["ctx_call"]) if self_of(f, r) == "ruleset::RuleSet" for q in tree_callees(f, r) if takes_cache(q)]
-        if len(direct) == 1 and not via:
-            return None, direct[0]
-        return (one([r for r, q in via], "RuleSet method called by the context's function call"),
-                one([q for r, q in via], "UserFunctions method called by RuleSet"))
+        ch = route_chain()
+        return (ch[1] if len(ch) == 3 else None), ch[-1]
 
     def ctx_constructors():
         news = []
@@ -156,6 +177,7 @@ def resolve(f, table=None):
         return sorted(news)
 
     # every further anchor is resolved on its own: a check is inconclusive only about what it needs
+    a.lazy("call_route", route_chain)
     a.lazy("rs_call", lambda: route()[0])
     a.lazy("uf_call", lambda: route()[1])
     a.lazy("uf_get", lambda: one([q for q in tree_callees(f, a["uf_call"]) if self_of(f, q) == "function::UserFunctions" and q != a["uf_call"]],
@@ -170,7 +192,9 @@ def resolve(f, table=None):
         chain, work = [], [a["ctx_symbol"]]
         while work:
             for q in tree_callees(f, work.pop()):
-                if self_of(f, q) in ("ruleset::RuleSet", "symbol::Symbols") and q not in chain:
+                if (self_of(f, q) in ("ruleset::RuleSet", "symbol::Symbols") or (self_of(f, q).split("<")[0] in f.adts and f.adts[self_of(f, q).split("<")[0]].get("local")
+                                                                                   and self_of(f, q) != a["ctx_type"].split("<")[0] and not f.bodies[q].get("coroutine_kind")
+                                                                                   and f.ty_s(f.bodies[q]["locals"][0]["ty"]).startswith("std::result::Result<&"))) and q not in chain:
                     chain.append(q)
                     work.append(q)
         if not any(self_of(f, q) == "symbol::Symbols" for q in chain):
